@@ -12,6 +12,8 @@ import (
 	"testing/synctest"
 	"time"
 
+	"github.com/gotd/td/bin"
+	"github.com/gotd/td/clock"
 	"github.com/gotd/td/crypto"
 	"github.com/gotd/td/mtproto"
 	"github.com/gotd/td/session"
@@ -25,9 +27,10 @@ import (
 
 // recStorage is an in-memory session.Storage that records every save.
 type recStorage struct {
-	mu    sync.Mutex
-	data  []byte
-	saves int
+	mu      sync.Mutex
+	data    []byte
+	saves   int
+	history [][]byte // every stored value, in order
 }
 
 func (s *recStorage) LoadSession(context.Context) ([]byte, error) {
@@ -43,6 +46,7 @@ func (s *recStorage) StoreSession(_ context.Context, d []byte) error {
 	s.mu.Lock()
 	defer s.mu.Unlock()
 	s.data = append([]byte(nil), d...)
+	s.history = append(s.history, s.data)
 	s.saves++
 	return nil
 }
@@ -428,5 +432,111 @@ func TestC30Concurrent(t *testing.T) {
 		}
 		cl = append(cl, fmt.Sprintf("pfs=%v", pfs))
 		st.Case(key, classes["migrate-during-save"] || classes["overlapping-notifications"], short(key, 300), cl...)
+	})
+}
+
+// delayClock is the client's clock (telegram.Options.Clock): Now takes a drawn
+// real time. The client reads the clock at many places between two steps of
+// its own bookkeeping; a reading that takes a while is ordinary (a loaded
+// machine) and widens whatever window lies there. Schedule perturbation, not
+// an oracle input: every outcome is judged by the stored sessions alone.
+type delayClock struct {
+	clock.Clock
+	d time.Duration
+}
+
+func (c delayClock) Now() time.Time {
+	if c.d > 0 {
+		time.Sleep(c.d)
+	}
+	return c.Clock.Now()
+}
+
+// C30 (d): a whole client against the harness server, in real time with real
+// parallelism: connect with a restored session, the server announces the
+// session before the config answer and (drawn) once more right after it. Every
+// session the client stores must pair DC 2 with the key of that connection.
+func TestC30Client(t *testing.T) {
+	st := pbt.NewStats("TestC30Client")
+	defer st.Flush()
+	cfgBuf := bin.Buffer{}
+	cfg := tg.Config{ThisDC: 2, DCOptions: []tg.DCOption{{ID: 2, IPAddress: "10.0.0.2", Port: 443}}, Date: 1, Expires: 1 << 30}
+	if err := cfg.Encode(&cfgBuf); err != nil {
+		t.Fatal(err)
+	}
+	rapid.Check(t, func(t *rapid.T) {
+		rnd, seed := pbt.DrawStream(t, "rnd")
+		again := rapid.IntRange(0, 3).Draw(t, "sessionAfterConfig") > 0
+		delay := time.Duration(rapid.SampledFrom([]int{0, 20, 200, 1000}).Draw(t, "clockDelayMicros")) * time.Microsecond
+		var key [256]byte
+		copy(key[:], rnd.Bytes(256))
+		srv := &server{key: key, t0: time.Now(), plan: map[uint64]string{}, handled: map[uint64]bool{}, seenTag: map[uint64][]seen{},
+			acked: map[uint64]int{}, ackedOn: map[uint64]map[int]bool{}, answered: map[uint64]int{}, cfg: cfgBuf.Buf, sessionAfterConfig: again}
+		ak := keyFrom(0)
+		ak.Value = key
+		ak.ID = ak.Value.ID()
+		store := &recStorage{}
+		if err := (&session.Loader{Storage: store}).Save(context.Background(), &session.Data{DC: 2, Addr: "10.0.0.2:443", AuthKey: ak.Value[:], AuthKeyID: ak.ID[:], Salt: 0x1234}); err != nil {
+			t.Fatal(err)
+		}
+		initial := store.saves
+		client := telegram.NewClient(1, "hash", telegram.Options{
+			DC:             2,
+			DCList:         dcs.List{Options: cfg.DCOptions},
+			Resolver:       dcs.Plain(dcs.PlainOptions{Dial: srv.dial}),
+			SessionStorage: store,
+			NoUpdates:      true,
+			Random:         rnd,
+			Clock:          delayClock{Clock: clock.System, d: delay},
+		})
+		ctx, cancel := context.WithTimeout(context.Background(), 60*time.Second)
+		defer cancel()
+		want := 1
+		if again {
+			want = 2
+		}
+		err := client.Run(ctx, func(ctx context.Context) error {
+			// the client is ready; give the announced sessions time to be stored
+			deadline := time.Now().Add(30 * time.Second)
+			for time.Now().Before(deadline) {
+				store.mu.Lock()
+				n := store.saves - initial
+				store.mu.Unlock()
+				if n >= want {
+					break
+				}
+				time.Sleep(200 * time.Microsecond)
+			}
+			time.Sleep(2 * time.Millisecond)
+			return nil
+		})
+		if err != nil {
+			t.Fatalf("Client.Run: %v", err)
+		}
+		srv.mu.Lock()
+		for _, p := range srv.peers {
+			_ = p.Conn.Close()
+		}
+		srv.mu.Unlock()
+		store.mu.Lock()
+		defer store.mu.Unlock()
+		for i, raw := range store.history[initial:] {
+			var v struct {
+				Data session.Data
+			}
+			if err := json.Unmarshal(raw, &v); err != nil {
+				t.Fatalf("stored session %d does not parse: %v", i, err)
+			}
+			if v.Data.DC != 2 || string(v.Data.AuthKey) != string(ak.Value[:]) || string(v.Data.AuthKeyID) != string(ak.ID[:]) {
+				t.Fatalf("C30 violated: stored session #%d pairs DC %d with key id %x; the only connection is to DC 2 with key id %x (session announced again after the config answer: %v, clock reading takes %v)",
+					i+1, v.Data.DC, v.Data.AuthKeyID, ak.ID, again, delay)
+			}
+			if v.Data.Salt != 0x4444 && v.Data.Salt != 0x5555 {
+				t.Fatalf("C30 violated: stored session #%d has salt %#x, the server announced 0x4444 and 0x5555", i+1, v.Data.Salt)
+			}
+		}
+		n := len(store.history) - initial
+		st.Case(fmt.Sprintf("%d/%v/%v", seed, again, delay), again && delay > 0, fmt.Sprintf("announcedAgain=%v clockDelay=%v stored=%d", again, delay, n),
+			fmt.Sprintf("announcedAgain=%v", again), fmt.Sprintf("clockDelay=%v", delay), fmt.Sprintf("stored=%d", n))
 	})
 }
